@@ -428,7 +428,11 @@ func (f *flow) Start(ctx context.Context) {
 						}
 
 					} else {
-						// nowhere to flow, abort
+						// nowhere to flow: the token ends here
+						f.tracer.Send(TerminationTrace{
+							FlowId: f.Id(),
+							Source: f.current.Element(),
+						})
 						return
 					}
 				case completeAction:
